@@ -33,7 +33,11 @@ def run(ctx):
         "model decision 'any' (damaged outer wrapper; damaged embedded certificate or tbs with nothing to check them against) is not compared, only judged at the property level",
         "panic-freedom on mutated DER and random bytes is exploration (C45-style totality is not claimed)",
     ]
-    r = ctx.tlc_must_hold("OCSP_MC", cfg="OCSP_All.cfg", workers=4, coverage=ctx.thorough, timeout=900)
+    import concurrent.futures
+    with concurrent.futures.ThreadPoolExecutor(max_workers=2) as ex:
+        f1 = ex.submit(ctx.tlc_must_hold, "OCSP_MC", cfg="OCSP_All.cfg", workers=4, coverage=ctx.thorough, timeout=900)
+        f2 = ex.submit(ctx.tlc_must_hold, "OCSPCerts_MC", cfg="OCSPCerts_M3.cfg", workers=2, timeout=600)
+        r, rm = f1.result(), f2.result()
     if ctx.thorough and r.coverage_zero:
         ctx.notes.append("OCSP actions never taken: %s" % r.coverage_zero)
     eku = ctx.tlc("OCSP_MC", cfg="OCSP_EKU.cfg", workers=1, expect_violation=True, count=False, timeout=600,
@@ -47,7 +51,6 @@ def run(ctx):
     ctx.log("OCSP: %d configurations (%d accept, %d reject, %d unpredicted)" % (
         len(r.traces), sum(t["d"] == "accept" for t in r.traces), sum(t["d"] == "reject" for t in r.traces), sum(t["d"] == "any" for t in r.traces)))
     # the certificates field as a SEQUENCE of 0..3 certificates in any order (spec/OCSPCerts.tla): property quantified over all positions
-    rm = ctx.tlc_must_hold("OCSPCerts_MC", cfg="OCSPCerts_M3.cfg", workers=2, timeout=600)
     if not rm.traces:
         raise vlib.Infra("OCSPCerts generator produced nothing")
     ctx.log("OCSPCerts: %d configurations (%d with >= 2 certificates)" % (len(rm.traces), sum(len(t["certs"]) >= 2 for t in rm.traces)))
